@@ -1031,7 +1031,7 @@ func skSupCmd(k skCtx, c *skCmd) bool {
 	case "and", "or":
 		return skSupStmt(cond, c.X) && skSupStmt(k, c.Y)
 	case "pipe":
-		return !(k.e && (k.ign || k.unk)) && !c.X.Neg && skSupCmd(skSubCtx(k), c.X.C) && !c.Y.Neg && skPure(c.Y.C)
+		return !(k.e && (k.ign || k.unk)) && !c.X.Neg && skSupCmd(skSubCtx(k), c.X.C) && !c.Y.Neg && skPure(c.Y.C) && c.Y.C.K != "assign"
 	case "if":
 		return skSupProg(cond, false, c.P) && skSupProg(k, true, c.P2) && skSupElse(k, c.Else)
 	case "while":
@@ -1052,13 +1052,17 @@ func skSupCmd(k skCtx, c *skCmd) bool {
 		}
 		return skSupBody(body, c.P2) && (!k.e || k.ign || tailOk)
 	case "case":
+		chain := false
 		for _, it := range c.Case {
 			kk := k
 			if it.Op != "brk" {
 				kk.tl = skHeadFalse(k.tl)
 			}
-			if !skSupProg(kk, true, it.Body) {
+			if (chain && len(it.Body) == 0) || !skSupProg(kk, true, it.Body) {
 				return false
+			}
+			if it.Op != "brk" {
+				chain = true
 			}
 		}
 		return true
@@ -1435,6 +1439,9 @@ func (g *skGen) stmt(k skCtx, depth int) *skStmt {
 					}
 				} else {
 					y = &skStmt{C: g.pure()}
+					for y.C.K == "assign" {
+						y = &skStmt{C: g.pure()}
+					}
 				}
 				return &skStmt{Neg: r.Intn(8) == 0 && (!k.e || g.wildly()) && false, C: &skCmd{K: "pipe", X: x, Y: y}}
 			}
@@ -1487,6 +1494,7 @@ func (g *skGen) stmt(k skCtx, depth int) *skStmt {
 			return &skStmt{C: &skCmd{K: "for", Name: r.Pick([]string{"i", "j"}), Items: items, P2: b}}
 		case c < 20:
 			var items []skItem
+			chain := false
 			n := 1 + r.Intn(3)
 			for i := 0; i < n; i++ {
 				it := skItem{Op: r.Pick([]string{"brk", "brk", "brk", "fall", "resume"})}
@@ -1502,8 +1510,11 @@ func (g *skGen) stmt(k skCtx, depth int) *skStmt {
 				if it.Op != "brk" {
 					kk.tl = skHeadFalse(k.tl)
 				}
-				if r.Intn(8) != 0 {
+				if r.Intn(8) != 0 || (chain && !g.wildly()) {
 					it.Body = g.prog(kk, true, depth-1, 2)
+				}
+				if it.Op != "brk" {
+					chain = true
 				}
 				items = append(items, it)
 			}
@@ -1590,6 +1601,14 @@ func c26(c *Ctx) {
 		e := skHasSetE(prog)
 		cs.sup = skSupported(e, prog)
 		cs.racy = skBashRacy(prog)
+		// [finding C26-funcdecl-list] `f() { …; } && cmd` / `f() { …; } | cmd`: the parser makes the
+		// whole list the function body, bash ends the definition at `}`.  The skeleton term is the
+		// parser's reading, so BashSem cannot be validated against bash on such text.
+		skWalk(prog, func(s *skStmt) {
+			if s.C.K == "fn" && (s.C.Body.Neg || s.C.Body.C.K != "block") {
+				cs.racy = true
+			}
+		})
 		nontrivial := false
 		skWalk(prog, func(s *skStmt) {
 			if !skPure(s.C) {
